@@ -44,6 +44,10 @@ def control_devs(s):
     for rel in (">", ">=", "<", "<="):
         out.append(("ctl_rule_time_%s" % {">": "gt", ">=": "ge", "<": "lt", "<=": "le"}[rel],
                     [{"kind": "time", "rel": rel, "t": 3 * H, "link": "p2", "value": "CLOSED", "else_value": "OPEN", "rule": True, "prio": 3}]))
+    # rules on the clock time in the noon hour and the midnight hour (12:xx PM / 12:xx AM in the rule text); the case loop
+    # starts these models at 10 AM / 10 PM so that the instant falls inside the 6-hour run
+    out.append(("ctl_rule_clock_noon", [{"kind": "clock", "rel": ">=", "t": 12 * H + 1800, "link": "p2", "value": "CLOSED", "else_value": "OPEN", "rule": True, "prio": 3}]))
+    out.append(("ctl_rule_clock_midnight", [{"kind": "clock", "rel": "<", "t": 1800, "link": "p2", "value": "CLOSED", "else_value": "OPEN", "rule": True, "prio": 3}]))
     if tank:
         out.append(("ctl_level", [{"kind": "level", "node": "T", "rel": ">", "thr": 3.4, "link": src, "value": "CLOSED"},
                                   {"kind": "level", "node": "T", "rel": "<", "thr": 2.6, "link": src, "value": "OPEN"}]))
@@ -99,6 +103,10 @@ def cases(tier):
                 if any(n["t"] == "tank" for n in s["nodes"]):
                     node(s, "T")["diam"] = 15.0
                 s["controls"] = clone(ctr)
+                if cname == "ctl_rule_clock_noon":
+                    s["opts"]["clock"] = 10 * H
+                elif cname == "ctl_rule_clock_midnight":
+                    s["opts"]["clock"] = 22 * H
                 s["opts"]["dur"] = 6 * H
                 s["id"] = {"skel": name, "devs": [{"k": cname}] + [{"k": e} for e in extra]}
                 out.append(s)
